@@ -277,17 +277,13 @@ def strip_enumerate(it):
 
 
 class Prov:
-    """Which local names of an exporter hold a row (`face`) or an element (`vid`, `a`, `v[0]`) of a mesh
-    container `mesh.<kind>`; `mesh` is the first parameter of the exporter."""
+    """Scope-aware provenance of mesh rows in an exporter: does a local name hold a row (`face`) or an
+    element (`vid`, `a`, `v[0]`) of a mesh container `mesh.<kind>`?  `mesh` is the first parameter."""
 
     def __init__(self, fn, mesh_name=None):
         self.fn = fn
         ps = au.params(fn, skip_self=True)
         self.mesh = mesh_name or (ps[0] if ps else None)
-        self.rows = {}    # name -> kind
-        self.elems = {}   # name -> kind
-        self.row_loops = []   # (kind, loop node (For or comprehension), row name | None, elem names, via)
-        self._scan()
 
     # mesh.<kind>
     def container_kind(self, e):
@@ -296,103 +292,145 @@ class Prov:
                 return e.attr
         return None
 
-    def row_expr_kind(self, e):
+    # -- binding lookup -------------------------------------------------------------------------
+    def find_binding(self, name, at):
+        """(target, source expr, how, node) of the innermost binding of `name` visible at node `at`."""
+        child = at
+        for a in au.ancestors(at):
+            if isinstance(a, (ast.For, ast.AsyncFor)):
+                if child is not a.iter and child is not a.target and name in au.assigned_names(a.target):
+                    return a.target, a.iter, "for", a
+            elif isinstance(a, (ast.ListComp, ast.GeneratorExp, ast.SetComp, ast.DictComp)):
+                for gi, g in enumerate(a.generators):
+                    if name in au.assigned_names(g.target):
+                        # visible in elt, in the ifs of this and later generators, in later iters
+                        if child is g and gi == 0:
+                            continue
+                        return g.target, g.iter, "comp", a
+            if isinstance(a, (ast.FunctionDef, ast.AsyncFunctionDef)):
+                break
+            # assignments earlier in the enclosing block
+            if isinstance(child, ast.stmt):
+                blk, _ = au.enclosing_block(child)
+                if blk:
+                    idx = [id(x) for x in blk].index(id(child))
+                    for s in reversed(blk[:idx]):
+                        if isinstance(s, ast.Assign) and len(s.targets) == 1 \
+                                and name in au.assigned_names(s.targets[0]):
+                            return s.targets[0], s.value, "assign", s
+                        if sym.Bindings._assigns(s, name):
+                            return None
+            child = a
+        return None
+
+    def name_role(self, name, at, depth=0):
+        """('row', kind) | ('elem', kind, position|None) | None for local `name` as seen from `at`."""
+        if depth > 6:
+            return None
+        bd = self.find_binding(name, at)
+        if bd is None:
+            return None
+        target, src_e, how, node = bd
+        if how in ("for", "comp"):
+            inner, en = strip_enumerate(src_e)
+            if en:
+                if not (isinstance(target, (ast.Tuple, ast.List)) and len(target.elts) == 2):
+                    return None
+                if name in au.assigned_names(target.elts[0]):
+                    return None
+                target = target.elts[1]
+            k = self.container_kind(inner)
+            if k is not None:
+                if k in CORNER_KINDS:
+                    return ("elem", CORNER_KINDS[k], None) if isinstance(target, ast.Name) else None
+                return self._from_row(target, name, k)
+            rk = self.row_expr_kind(inner, node, depth + 1)
+            if rk is not None and isinstance(target, ast.Name):
+                return ("elem", rk, None)
+            return None
+        rk = self.row_expr_kind(src_e, node, depth + 1)
+        if rk is not None:
+            return self._from_row(target, name, rk)
+        return None
+
+    @staticmethod
+    def _from_row(target, name, kind):
+        if isinstance(target, ast.Name):
+            return ("row", kind)
+        if isinstance(target, (ast.Tuple, ast.List)):
+            for i, t in enumerate(target.elts):
+                if isinstance(t, ast.Name) and t.id == name:
+                    return ("elem", kind, i)
+        return None
+
+    def row_expr_kind(self, e, at=None, depth=0):
         """kind if `e` denotes one row: a row name, or `mesh.<kind>[i]`."""
-        if isinstance(e, ast.Name) and e.id in self.rows:
-            return self.rows[e.id]
+        at = at if at is not None else e
+        if isinstance(e, ast.Name):
+            r = self.name_role(e.id, at, depth)
+            return r[1] if r and r[0] == "row" else None
         if isinstance(e, ast.Subscript) and not isinstance(e.slice, ast.Slice):
             k = self.container_kind(e.value)
             if k in KINDS:
                 return k
         return None
 
-    def _bind_row(self, target, kind, node, via):
-        if kind in CORNER_KINDS:          # iterating a corner container yields vertex ids
-            if isinstance(target, ast.Name):
-                self.elems[target.id] = CORNER_KINDS[kind]
-                self.row_loops.append((CORNER_KINDS[kind], node, None, [target.id], via))
-            return
-        if isinstance(target, ast.Name):
-            self.rows[target.id] = kind
-            self.row_loops.append((kind, node, target.id, [], via))
-        elif isinstance(target, (ast.Tuple, ast.List)):
-            names = [t.id for t in target.elts if isinstance(t, ast.Name)]
-            for n in names:
-                self.elems[n] = kind
-            self.row_loops.append((kind, node, None, names, via))
+    # -- loops over rows --------------------------------------------------------------------------
+    def row_loops(self):
+        """[(kind, For node, via)]: `for r in mesh.K` (via='loop', also enumerate) and
+        `for e in <ids>: a, b = mesh.K[e]` (via='index')."""
+        out = []
+        for st in au.stmts(self.fn.body):
+            if not isinstance(st, ast.For):
+                continue
+            inner, en = strip_enumerate(st.iter)
+            k = self.container_kind(inner)
+            if k is not None:
+                out.append((CORNER_KINDS.get(k, k), st, "loop"))
+                continue
+            if isinstance(st.target, ast.Name):
+                for s in st.body:
+                    if isinstance(s, ast.Assign) and isinstance(s.value, ast.Subscript) \
+                            and self.container_kind(s.value.value) in KINDS \
+                            and isinstance(s.value.slice, ast.Name) and s.value.slice.id == st.target.id:
+                        out.append((self.container_kind(s.value.value), st, "index"))
+                        break
+        return out
 
-    def _scan(self):
-        gens = []
-        for n in au.walk(self.fn):
-            if isinstance(n, ast.For):
-                gens.append((n.target, n.iter, n))
-            elif isinstance(n, ast.comprehension):
-                gens.append((n.target, n.iter, n))
-        assigns = [st for st in au.stmts(self.fn.body) if isinstance(st, ast.Assign) and len(st.targets) == 1]
-        for _ in range(4):
-            before = (len(self.rows), len(self.elems))
-            for target, it, node in gens:
-                inner, en = strip_enumerate(it)
-                if en:
-                    if isinstance(target, ast.Tuple) and len(target.elts) == 2:
-                        target = target.elts[1]
-                    else:
-                        continue
-                k = self.container_kind(inner)
-                if k is not None:
-                    if not any(rl[1] is node for rl in self.row_loops):
-                        self._bind_row(target, k, node, "loop")
-                    continue
-                rk = self.row_expr_kind(inner)
-                if rk is not None and isinstance(target, ast.Name):
-                    self.elems[target.id] = rk
-            for st in assigns:
-                rk = self.row_expr_kind(st.value)
-                if rk is None:
-                    continue
-                if isinstance(st.value, ast.Name):
-                    if isinstance(st.targets[0], ast.Name):
-                        self.rows[st.targets[0].id] = rk
-                    continue
-                if not any(rl[1] is st for rl in self.row_loops):
-                    self._bind_row(st.targets[0], rk, st, "index")
-            if (len(self.rows), len(self.elems)) == before:
-                break
-
-    def classify(self, e):
+    # -- classification of a rendered expression -------------------------------------------------------
+    def classify(self, e, at=None):
         """('elem', kind, offset|None, position|None) for an expression that renders one element of a row;
         ('row', kind) for a whole row; None otherwise.  `offset` is the integer added to the element."""
+        at = at if at is not None else e
         if isinstance(e, ast.Starred):
             v = e.value
-            rk = self.row_expr_kind(v)
+            rk = self.row_expr_kind(v, at)
             if rk is not None:
                 return ("elem", rk, 0, None)
             if isinstance(v, (ast.GeneratorExp, ast.ListComp)) and len(v.generators) == 1:
                 g = v.generators[0]
-                rk = self.row_expr_kind(g.iter)
+                rk = self.row_expr_kind(g.iter, at)
                 if rk is not None and isinstance(g.target, ast.Name) and not g.ifs:
                     off = affine_offset(v.elt, lambda x: isinstance(x, ast.Name) and x.id == g.target.id)
                     return ("elem", rk, off, None)
             return None
-        rk = self.row_expr_kind(e)
+        rk = self.row_expr_kind(e, at)
         if rk is not None:
             return ("row", rk)
-
-        def is_elem(x):
-            if isinstance(x, ast.Name) and x.id in self.elems:
-                return True
-            if isinstance(x, ast.Subscript) and self.row_expr_kind(x.value) is not None \
-                    and not isinstance(x.slice, ast.Slice):
-                return True
-            return False
-        found = [x for x in au.walk(e) if is_elem(x)]
-        # a subscripted row `v[0]` also contains the Name `v` (a row, not an element): fine
+        found = []
+        for x in au.walk(e):
+            if isinstance(x, ast.Name) and isinstance(x.ctx, ast.Load):
+                r = self.name_role(x.id, x if au.parent(x) is not None else at)
+                if r and r[0] == "elem":
+                    found.append((x, r[1], r[2]))
+            elif isinstance(x, ast.Subscript) and not isinstance(x.slice, ast.Slice):
+                rk = self.row_expr_kind(x.value, x.value if au.parent(x.value) is not None else at)
+                if rk is not None:
+                    found.append((x, rk, au.const(x.slice)))
         if not found:
             return None
-        x = found[0]
-        kind = self.elems[x.id] if isinstance(x, ast.Name) else self.row_expr_kind(x.value)
-        pos = au.const(x.slice) if isinstance(x, ast.Subscript) else None
-        if len(found) > 1 and not all(au.same(f, x) for f in found):
+        x, kind, pos = found[0]
+        if len(found) > 1 and not all(au.same(f[0], x) for f in found):
             return ("elem", kind, None, pos)
         return ("elem", kind, affine_offset(e, lambda y: au.same(y, x)), pos)
 
@@ -408,22 +446,6 @@ def affine_offset(expr, is_atom):
         if c.denominator == 1:
             return int(c)
     return None
-
-
-def int_conversions(expr):
-    """[(call node, offset)] for every `int(..)` inside expr with the integer added around it
-    (`int(x) - 1` -> -1); offset None if the surrounding arithmetic is not `int(..) + k`."""
-    out = []
-    for n in au.walk(expr):
-        if isinstance(n, ast.Call) and isinstance(n.func, ast.Name) and n.func.id == "int":
-            top = n
-            while True:
-                p = getattr(top, "_parent2", None)
-                if p is None:
-                    break
-                top = p
-            out.append(n)
-    return out
 
 
 def arith_context(call, root):
